@@ -460,7 +460,9 @@ def generate_fold():
 
 def generate_aliases():
     import codecs, encodings, encodings.aliases, pkgutil
-    want = {'utf-8': 'CUtf8', 'iso8859-1': 'CLatin1', 'ascii': 'CAscii'}
+    want = {'utf-8': 'CUtf8', 'iso8859-1': 'CLatin1', 'ascii': 'CAscii', 'utf-16': 'CUtf16', 'utf-16-le': 'CUtf16LE',
+            'utf-16-be': 'CUtf16BE', 'utf-32': 'CUtf32', 'utf-32-le': 'CUtf32LE', 'utf-32-be': 'CUtf32BE',
+            'cp1252': 'CCp1252', 'koi8-r': 'CKoi8R'}
     def ident(name):
         try: n = codecs.lookup(name).name
         except LookupError: return None
@@ -473,14 +475,51 @@ def generate_aliases():
            % sys.version.split()[0]]
     out.append('Require Import OV.Base.Bytes.')
     out.append('Open Scope N_scope.')
-    out.append('Inductive codec_id := CUtf8 | CLatin1 | CAscii.')
-    out.append('(* keys of encodings.aliases.aliases that resolve to one of the three modelled codecs *)')
+    out.append('Inductive codec_id := CUtf8 | CLatin1 | CAscii | CUtf16 | CUtf16LE | CUtf16BE | CUtf32 | CUtf32LE | CUtf32BE | CCp1252 | CKoi8R.')
+    out.append('(* byte order the BOM-writing codecs utf-16 / utf-32 use on this machine (sys.byteorder) *)')
+    out.append('Definition native_le : bool := %s.' % ('true' if sys.byteorder == 'little' else 'false'))
+    out.append('(* keys of encodings.aliases.aliases that resolve to one of the modelled codecs *)')
     out.append('Definition codec_aliases : list (str * codec_id) := [%s].' % '; '.join('(%s, %s)' % (lit(k), v) for k, v in al))
-    out.append('(* module names of the encodings package that are one of the three modelled codecs *)')
+    out.append('(* module names of the encodings package that are one of the modelled codecs *)')
     out.append('Definition codec_modules : list (str * codec_id) := [%s].' % '; '.join('(%s, %s)' % (lit(k), v) for k, v in mods))
+    return '\n'.join(out) + '\n'
+
+
+# ------------------------------------------------------------------ single-byte (charmap) codecs
+
+CHARMAPS = [('cp1252', 'cp1252_table'), ('koi8-r', 'koi8r_table')]
+
+def generate_charmaps():
+    """decoding tables of CPython's single-byte codecs; fail closed unless the encoder is the inverse that picks the
+    first byte of a character, nothing else is encodable, and 'replace' writes b'?'"""
+    out = ['(* GENERATED by tools/gen/gen_C16.py from the codecs of the running CPython %s. Do not edit. *)' % sys.version.split()[0]]
+    out.append('Require Import OV.Base.Bytes.')
+    out.append('Open Scope N_scope.')
+    for name, coq in CHARMAPS:
+        tbl = []
+        for i in range(256):
+            try:
+                t = bytes([i]).decode(name)
+                if len(t) != 1: raise GenError('%s decodes byte %d to %d characters' % (name, i, len(t)))
+                tbl.append(ord(t))
+            except UnicodeDecodeError:
+                tbl.append(None)
+        first = {}
+        for i, c in enumerate(tbl):
+            if c is not None and c not in first: first[c] = i
+        for x in range(0x110000):
+            try: b = chr(x).encode(name)
+            except UnicodeEncodeError: b = None
+            want = bytes([first[x]]) if x in first else None
+            if b != want: raise GenError('%s encoder is not the first-byte inverse of its decoding table at U+%04X' % (name, x))
+        if '\ud800\u20ac\uffff'.encode(name, 'replace') != b'?' + ('\u20ac'.encode(name, 'replace')) + b'?':
+            raise GenError('%s replace policy' % name)
+        if bytes([0x41]).decode(name) != 'A' or 'a\U0010ffffb'.encode(name, 'ignore') != b'ab': raise GenError('%s sanity' % name)
+        out.append('(* %s: byte -> code point (None = undefined) *)' % name)
+        out.append('Definition %s : list (option N) := [%s].' % (coq, '; '.join('None' if c is None else 'Some %d' % c for c in tbl)))
     return '\n'.join(out) + '\n'
 
 
 if __name__ == '__main__':
     which = sys.argv[1] if len(sys.argv) > 1 else 'code'
-    sys.stdout.write({'code': generate_code, 'slug': generate_slug, 'fold': generate_fold, 'aliases': generate_aliases}[which]())
+    sys.stdout.write({'code': generate_code, 'slug': generate_slug, 'fold': generate_fold, 'aliases': generate_aliases, 'charmaps': generate_charmaps}[which]())
